@@ -6,6 +6,7 @@ package sim
 import (
 	"bytes"
 	"context"
+	"encoding/binary"
 	"errors"
 	"fmt"
 	"io"
@@ -72,6 +73,7 @@ type lifeScenario struct {
 	SecondServe    string        // "" | "cancel" | "shutdown": after a serving that ended by context cancellation the same Server value serves again on a new listener, and that serving is ended this way
 	LongSession    bool          // the lifecycle action comes only after 26-30 simulated seconds: connections that stay silent are closed by the server's idle limit first
 	ManyClients    bool          // some 300 short-lived connections before the lifecycle action
+	Epoch          bool          // one connection that has been answered more than 65536 times when the lifecycle action finds its next request in the handler
 	SameAddr       bool          // every connection reports the same remote address (as on a net.Pipe or unix-socket listener): callbacks cannot tell connections apart, per-connection callback oracles become totals
 	Race           bool
 }
@@ -270,6 +272,25 @@ func genC17(t *Tape) *lifeScenario {
 	if sc.Action == "cancel" && sc.Second == "" && t.Choose(3) == 0 {
 		sc.SecondServe = []string{"cancel", "shutdown"}[t.Choose(2)]
 	}
+	if t.Chance(1, 30000) || forceScenario == "epoch" {
+		// a very long session: one connection is answered a little more than 65536 times (a poller that has been
+		// connected for a day); graceful shutdown is asked for while the handler works on its next request
+		fast, ok1 := genValidSrvReq(t, 3, 1, 7)
+		slow, ok2 := genValidSrvReq(t, 4, 1, 9)
+		if ok1 && ok2 {
+			sc.Epoch, sc.ManyClients, sc.LongSession = true, false, false
+			cl := lifeClient{}
+			n := 65534 + t.Choose(5)
+			for i := 0; i < n; i++ {
+				cl.Ops = append(cl.Ops, lifeOp{Kind: "req", Frame: fast.Frame, TID: fast.TID})
+			}
+			cl.Ops = append(cl.Ops, lifeOp{Kind: "req", Frame: slow.Frame, TID: slow.TID, Work: 60 * time.Millisecond}, lifeOp{Kind: "hold"})
+			sc.Clients = []lifeClient{cl}
+			sc.Action, sc.ShutdownCtx, sc.Second, sc.SecondServe = "shutdown", 5*time.Second, "", ""
+			sc.Trigger, sc.TriggerN, sc.TriggerDelay = "handler_start", 2, time.Duration(t.Choose(2))*200*time.Microsecond
+			sc.RejectEvery, sc.WriteDelay, sc.CallbackWork, sc.OnServeWork = 0, 0, 0, 0
+		}
+	}
 	return sc
 }
 
@@ -350,6 +371,9 @@ func runLife(rc *RunCtx, sc *lifeScenario, seed uint64) *lifeOutcome {
 	s.Free = sc.Race
 	if sc.LongSession || sc.ManyClients {
 		s.MaxSteps = 600000
+	}
+	if sc.Epoch {
+		s.MaxSteps = 6000000
 	}
 	out := &lifeOutcome{CloseCB: map[string]int{}, CloseCBFlag: map[string]bool{}, HandlerStart: map[uint16]int{}, HandlerEnd: map[uint16]int{}, Aborted: map[uint16]bool{},
 		ClientSaw: make([]string, len(sc.Clients)), ClientRecv: make([][]byte, len(sc.Clients)), ClientConn: make([]*Conn, len(sc.Clients)),
@@ -544,7 +568,7 @@ func runLife(rc *RunCtx, sc *lifeScenario, seed uint64) *lifeOutcome {
 				return n
 			}
 			// if the event never comes the controller acts at a late fixed time instead
-			if tk.WaitUntil("await-"+sc.Trigger, func() bool { return count() >= sc.TriggerN }, time.Now().Add(600*time.Millisecond)) == Drained {
+			if tk.WaitUntil("await-"+sc.Trigger, func() bool { return count() >= sc.TriggerN }, time.Now().Add(map[bool]time.Duration{false: 600 * time.Millisecond, true: 10 * time.Minute}[sc.Epoch])) == Drained {
 				return
 			}
 			if sc.TriggerDelay > 0 && tk.Sleep("trigger-delay", sc.TriggerDelay) == Drained {
@@ -699,10 +723,26 @@ func runLife(rc *RunCtx, sc *lifeScenario, seed uint64) *lifeOutcome {
 			out.ClientSaw[ci] = "open"
 			tmp := make([]byte, 512)
 			recv := &out.ClientRecv[ci]
+			parsedOff, parsedFrames := 0, 0
+			countFrames := func() int { // complete reply frames received so far (as SplitTCPStream counts them, incrementally)
+				for {
+					b := (*recv)[parsedOff:]
+					if len(b) < 7 {
+						break
+					}
+					l := int(binary.BigEndian.Uint16(b[4:]))
+					if len(b) < 6+l || l < 2 {
+						break
+					}
+					parsedOff += 6 + l
+					parsedFrames++
+				}
+				return parsedFrames
+			}
 			read := func(d time.Duration, want int) string {
 				deadline := time.Now().Add(d)
 				for {
-					if f, _ := SplitTCPStream(*recv); want > 0 && len(f) >= want {
+					if want > 0 && countFrames() >= want {
 						return "ok"
 					}
 					cl.SetReadDeadline(deadline)
@@ -851,7 +891,13 @@ func describeLifeClients(sc *lifeScenario) []string {
 	var out []string
 	for _, c := range sc.Clients {
 		s := fmt.Sprintf("delay=%v:", c.Delay)
-		for _, op := range c.Ops {
+		for i, op := range c.Ops {
+			if i >= 12 && i < len(c.Ops)-3 {
+				if i == 12 {
+					s += fmt.Sprintf(" ...(%d operations in all)", len(c.Ops))
+				}
+				continue
+			}
 			switch op.Kind {
 			case "req":
 				s += fmt.Sprintf(" req(tid%d,cut%d,work%v,panic=%v)", op.TID, op.Cut, op.Work, op.Panic)
@@ -1010,6 +1056,13 @@ func checkC17(rc *RunCtx, sc *lifeScenario, out *lifeOutcome, seed uint64) {
 			if c == nil {
 				continue
 			}
+			var wrote []byte // what the server had written to this client when the call returned
+			for _, r := range c.peer.Rec {
+				if r.Kind == "write" && r.Err == nil && r.Step <= d.retStep {
+					wrote = append(wrote, r.Data...)
+				}
+			}
+			found := map[string]bool{}
 			for _, op := range cl.Ops {
 				if op.Kind != "req" || op.Panic {
 					continue
@@ -1025,13 +1078,12 @@ func checkC17(rc *RunCtx, sc *lifeScenario, out *lifeOutcome, seed uint64) {
 					continue // the application itself cancelled the serve context: the handler was told to stop
 				}
 				want := lifeModelReply(seed, op.Frame)
-				var wrote []byte
-				for _, r := range c.peer.Rec {
-					if r.Kind == "write" && r.Err == nil && r.Step <= d.retStep {
-						wrote = append(wrote, r.Data...)
-					}
+				ok, known := found[string(want)]
+				if !known {
+					ok = bytes.Contains(wrote, want)
+					found[string(want)] = ok
 				}
-				if !bytes.Contains(wrote, want) {
+				if !ok {
 					rc.Violate("inflight_reply_lost", cb+after, "handler for request tid %d had started (step %d) before %s returned nil (step %d) but its complete reply %x had not been written to the client by then (written: %x)",
 						op.TID, st, d.label, d.retStep, trunc(want, 24), trunc(wrote, 48))
 					break
